@@ -136,6 +136,42 @@ func Harness_C03_content_round_trip() {
 	if rerr == nil {
 		vm.Assert("C03.restore_bytes", string(sink.data) == string(content))
 	}
+	// replacing a non-empty content by an empty one (opened with O_TRUNC and closed, or truncated through the handle)
+	if l > 0 && l <= 3 && vm.Bool("thenEmptied") {
+		var eh interface {
+			Truncate(int64) error
+			Close() error
+		}
+		var eerr error
+		if vm.Bool("emptiedByTruncate") {
+			fh, e := v.FS.OpenFile(name, os.O_RDWR, 0)
+			eerr = e
+			if e == nil {
+				eerr = fh.Truncate(0)
+				eh = fh
+			}
+		} else {
+			fh, e := v.FS.OpenFile(name, os.O_WRONLY|os.O_TRUNC, 0)
+			eerr = e
+			if e == nil {
+				eh = fh
+			}
+		}
+		vm.Assert("C03.emptying_ok", eerr == nil)
+		if eh != nil {
+			vm.Assert("C03.emptying_close_ok", eh.Close() == nil)
+		}
+		st2, serr2 := v.FS.Stat(name)
+		vm.Assert("C03.size_after_emptying", serr2 == nil && st2.Size() == 0)
+		r2, oerr2 := v.FS.Open(name)
+		vm.Assert("C03.open_after_emptying", oerr2 == nil)
+		if oerr2 == nil {
+			buf := make([]byte, 2)
+			n, rerr := r2.Read(buf)
+			vm.Assert("C03.read_after_emptying", n <= 0 && (rerr == nil || rerr == io.EOF))
+			r2.Close()
+		}
+	}
 	// the stream handed to the tape was produced by closed compressors/encryptors
 	for _, c := range vm.Codecs {
 		vm.Assert("C03.compressor_closed_before_stream_ends", c.Closed)
